@@ -74,7 +74,7 @@ def _header_names(mapb):
             p = provenance(mapb.node, s.value, mapb.params(), asg)
             if any("_BLOCK_HEADER" in t for t in p) or any("_unpack_read" in t for t in p):
                 return tuple(norm(t) for t in s.targets[0].elts)
-    raise AnalysisError("map_blocks: block header unpack not found")
+    return None, None  # the header is used whole (`UKVRecord(pos, *blk_header)`)
 
 
 def r2_complete_records(chk, mapb):
@@ -114,9 +114,15 @@ def r2_complete_records(chk, mapb):
         if len(vals) == 1 and isinstance(vals[0], ast.Call) and call_name(vals[0]) == "UKVRecord":
             c = vals[0]
             m = {}
-            for i, a in enumerate(c.args):
+            i = 0
+            for a in c.args:
+                if isinstance(a, ast.Starred):
+                    for f_ in rec_fields[i:]:
+                        m[f_] = a.value
+                    break
                 if i < len(rec_fields):
                     m[rec_fields[i]] = a
+                i += 1
             for k in c.keywords:
                 m[k.arg] = k.value
             return m
@@ -145,6 +151,8 @@ def r2_complete_records(chk, mapb):
                     out.add("key")
                 if n == rlen:
                     out.add("value")
+                if any(isinstance(v, ast.AST) and has_call(v, {"self._unpack_read"}) and "_BLOCK_HEADER" in norm(v) for v in asg.get(n, [])):
+                    out |= {"key", "value"}  # the whole header
                 if n in read_names:
                     continue  # bytes read are 'actual', not 'declared'
                 for v in asg.get(n, []):
@@ -195,6 +203,20 @@ def r2_complete_records(chk, mapb):
                     torn_true = not torn_true
                 tests.append(dict(node=n, covers=d, kind=a, torn="true" if torn_true else "false", decl=decl, op=op, swapped=swapped))
                 break
+    # size tests found by the affine offset analysis (any spelling: count-down of the bytes left, absolute offsets, ...)
+    facts = None
+    try:
+        from .ukvscan import scan_facts
+
+        facts = scan_facts(chk.prog, mapb, 2)
+    except AnalysisError as e:
+        chk.note(f"offset analysis of the scan not available: {e}")
+    if facts is not None:
+        for g in facts.get("_fit_guards", []):
+            for n in cfg.nodes:
+                if n.kind == "test" and id(n.ast) in in_loop | {id(loop)} and any(x is g.node for x in ast.walk(n.ast.test)):
+                    if not any(t["node"] is n for t in tests):
+                        tests.append(dict(node=n, covers={"key", "value"}, kind="size", torn="true" if g.data["exit_when"] else "false", decl=None, op=None, swapped=False))
     key = f"{mapb.key}:scan-admits-only-complete-records"
     if not tests:
         chk.fail("C03.R2", key, mapb.where(stores[0].ast),
@@ -230,47 +252,13 @@ def r2_complete_records(chk, mapb):
     else:
         chk.ok("C03.R2", key, mapb.where(tests[0]["node"].ast),
                f"{len(tests)} completeness test(s) ({', '.join(short(t['node'].ast.test, 40) for t in tests)}) dominate {len(stores)} index store(s)")
-    # a test against the file size must compare the record's exact end: pos + header + key + value
-    for t in tests:
-        if t["kind"] != "size":
-            continue
-
-        def terms(e, out):
-            if isinstance(e, ast.BinOp) and isinstance(e.op, ast.Add):
-                terms(e.left, out)
-                terms(e.right, out)
-            elif isinstance(e, ast.Attribute) and isinstance(e.value, ast.Name) and record_ctor(e.value.id) is not None:
-                ctor = record_ctor(e.value.id)
-                mem = rec_cls.members.get(e.attr)
-                if e.attr in rec_fields:
-                    terms(ctor[e.attr], out)
-                elif mem is not None and mem.getter is not None:
-                    ret = [x for x in ast.walk(mem.getter) if isinstance(x, ast.Return)][0].value
-
-                    class Sub(ast.NodeTransformer):
-                        def visit_Attribute(self, n):
-                            if isinstance(n.value, ast.Name) and n.value.id == "self":
-                                return ast.Attribute(value=ast.Name(id=e.value.id, ctx=ast.Load()), attr=n.attr, ctx=ast.Load())
-                            return self.generic_visit(n)
-                    import copy
-                    terms(Sub().visit(copy.deepcopy(ret)), out)
-                else:
-                    out.append(norm(e))
-            else:
-                out.append(norm(e))
-            return out
-
-        got = sorted(terms(t["decl"], []))
-        want = sorted(["pos", "_BLOCK_HEADER.size", klen, rlen])
-        strict = isinstance(t["op"], (ast.Gt, ast.LtE)) if not t["swapped"] else isinstance(t["op"], (ast.Lt, ast.GtE))
-        problems = []
-        if got != want:
-            problems.append(f"the compared extent is {' + '.join(got)}, the record ends at {' + '.join(want)}")
-        if not strict:
-            problems.append("a record ending exactly at the end of the file is rejected (the comparison must be strict on the torn side)")
-        chk.decide(not problems, "C03.R2", f"{mapb.key}:completeness-test-compares-exact-end", mapb.where(t["node"].ast),
-                   f"`{short(t['node'].ast.test, 50)}` compares pos + header + key + value with the file size",
-                   f"`{short(t['node'].ast.test, 50)}`: " + "; ".join(problems) + " - a record torn inside its last bytes is admitted (or a complete last record dropped)")
+    # a test against the file size must compare the record's exact end: pos + header + key + value (affine fact F5)
+    if any(t["kind"] == "size" for t in tests):
+        chk.require(facts is not None, "map_blocks: the scan tests the file size but its offsets could not be analysed")
+        f5 = facts["fit"]
+        chk.decide(f5.ok, "C03.R2", f"{mapb.key}:completeness-test-compares-exact-end", mapb.where(f5.node), f5.good, f5.bad)
+        f6 = facts["eof"]
+        chk.decide(f6.ok, "C03.R3", f"{mapb.key}:eof-is-offset-of-first-unadmitted-block", mapb.where(f6.node), f6.good, f6.bad)
     return dict(tests=tests, tnodes=tnodes, header=header, cfg=cfg, in_loop=in_loop, stores=stores)
 
 
